@@ -9,6 +9,7 @@ Oracle: direct evaluation of the selector tree with ==/and/or.  No booleq code
 is used in the oracle.
 """
 
+import collections.abc
 from typing import Tuple
 
 from vlib.prelude import (  # noqa
@@ -21,6 +22,7 @@ NV = param("C17_NV", quick=3, thorough=2)
 NVAL = param("C17_NVAL", quick=3, thorough=2)
 ARITY = param("C17_ARITY", quick=3, thorough=2)   # max children of And/Or
 SWAP = param("C17_SWAP", quick=1, thorough=0)     # also build Eq(value, var)
+NARROW = param("C17_NARROW", quick=0, thorough=0)  # leaf level: only variable ~a; Eq(var,var) only (~a,~b)
 
 NODES = sum(3**d for d in range(DEPTH))
 FIRST_LEAF = sum(3**d for d in range(DEPTH - 1))
@@ -32,18 +34,36 @@ SIGMA = Tuple[(int,) * NV]
 TABLE = Tuple[(bool,) * (NV * NVAL)]
 
 K_TRUE, K_FALSE, K_EQ, K_EQVV, K_EQSWAP, K_AND0, K_OR0, K_AND, K_OR = range(9)
-LEAF = [K_TRUE, K_FALSE, K_EQ, K_EQVV] + ([K_EQSWAP] if SWAP else [])
-INNER = LEAF + [K_AND0, K_OR0, K_AND, K_OR]
+BASE = [K_TRUE, K_FALSE, K_EQ, K_EQVV] + ([K_EQSWAP] if SWAP else [])
+INNER = BASE + [K_AND0, K_OR0, K_AND, K_OR]
+# kinds allowed at the deepest level (NARROW=2: only TRUE and ~a == value)
+LEAF = [K_TRUE, K_EQ] if NARROW == 2 else BASE
+if DEPTH == 1:
+  INNER = LEAF
 
 
 def tree_ok(t):
-  """Validity predicate of the selector vector (bounds only; no forks)."""
+  """Validity predicate of the selector vector (exact bounds; no forks)."""
   conds = []
   for i in range(NODES):
-    conds.append(inrange(t[3 * i], 0, len(LEAF if i >= FIRST_LEAF else INNER)))
-    conds.append(inrange(t[3 * i + 1], 0, 3))
-    conds.append(inrange(t[3 * i + 2], 0, 3))
-    # (a, b are decoded modulo the number of variables / values / arity)
+    kinds = LEAF if i >= FIRST_LEAF else INNER
+    k, a, b = t[3 * i], t[3 * i + 1], t[3 * i + 2]
+    conds.append(inrange(k, 0, len(kinds)))
+    conds.append(0 <= a)
+    conds.append(0 <= b)
+    if i < FIRST_LEAF:
+      andor = any([k == INNER.index(K_AND), k == INNER.index(K_OR)])
+      conds.append(any([all([andor, a < ARITY]), all([andor ^ True, a < NV])]))
+    else:
+      conds.append(a < (1 if NARROW else NV))
+    if K_EQVV not in kinds:
+      conds.append(b < NVAL)
+    elif NARROW and i >= FIRST_LEAF:
+      conds.append(any([all([k == kinds.index(K_EQVV), b == 1]),
+                        all([k != kinds.index(K_EQVV), b < NVAL])]))
+    else:
+      conds.append(any([all([k == kinds.index(K_EQVV), b < NV]),
+                        all([k != kinds.index(K_EQVV), b < NVAL])]))
   return all(conds)
 
 
@@ -61,8 +81,55 @@ def decode(t, i=0):
   return (k, a, b, ())
 
 
-def build(d):
-  """Builds the term through the public constructors only."""
+def canon_ok(t):
+  """Selectors the decoder will not look at are pinned to 0 (no forks), so the
+  leading selectors identify an input uniquely and shards do not overlap."""
+  if FIRST_LEAF == 0:
+    return True
+  i_and, i_or = INNER.index(K_AND), INNER.index(K_OR)
+  andor = any([t[0] == i_and, t[0] == i_or])
+  uses_a = all([t[0] != INNER.index(K_TRUE), t[0] != INNER.index(K_FALSE),
+                t[0] != INNER.index(K_AND0), t[0] != INNER.index(K_OR0)])
+  return all([
+      any([uses_a, t[1] == 0]),
+      any([andor, t[3] == 0]),
+      any([all([andor, t[1] >= 1]), t[6] == 0]),
+      any([all([andor, t[1] >= 2]), t[9] == 0]),
+  ])
+
+
+def shard_key(t):
+  if FIRST_LEAF == 0:
+    return t[0]
+  return t[0] + 9 * (t[1] + 3 * (t[3] + 9 * (t[6] + 9 * t[9])))
+
+
+def snap(term):
+  """Structural snapshot of a real term (to detect mutation of operands)."""
+  if term is booleq.TRUE or term is booleq.FALSE:
+    return repr(term)
+  if isinstance(term, booleq._Eq):  # pylint: disable=protected-access
+    return ("eq", term.left, term.right)
+  return (type(term).__name__, frozenset(snap(e) for e in term.exprs))
+
+
+def build(d, log=None):
+  """Builds the term through the public constructors only.
+
+  Every constructed (sub)term is appended to `log` with its snapshot so the
+  harness can assert that later constructor calls did not modify it.
+  """
+  term = _build(d, log)
+  if log is not None:
+    log.append((term, snap(term)))
+  return term
+
+
+def unmodified(log):
+  return all([snap(term) == s0 for term, s0 in log])
+
+
+def _build(d, log):
   k, a, b, kids = d
   if k == K_TRUE:
     return booleq.TRUE
@@ -78,7 +145,7 @@ def build(d):
     return booleq.And([])
   if k == K_OR0:
     return booleq.Or([])
-  sub = [build(c) for c in kids]
+  sub = [build(c, log) for c in kids]
   return booleq.And(sub) if k == K_AND else booleq.Or(sub)
 
 
@@ -138,14 +205,32 @@ def nontrivial(d):
   return d[0] in (K_AND, K_OR)
 
 
-class SymSet:
-  """Set-like table entry whose membership answers are the symbolic bools."""
+class SymSet(collections.abc.Set):
+  """Set of possible values whose membership answers are the symbolic bools.
+
+  A faithful set-like object (in, iteration, len and the Set mixin operators);
+  iterating or taking len forks on the membership bits it needs.
+  """
 
   def __init__(self, row):
     self.row = row
 
   def __contains__(self, v):
+    if v not in VALS:
+      return False
     return self.row[VALS.index(v)]
+
+  def __iter__(self):
+    for i, v in enumerate(VALS):
+      if self.row[i]:
+        yield v
+
+  def __len__(self):
+    return sum(1 for _ in self)
+
+  @classmethod
+  def _from_iterable(cls, it):
+    return frozenset(it)
 
 
 def sigma_ok(sigma):
@@ -154,15 +239,16 @@ def sigma_ok(sigma):
 
 def h_build(t: TREE, sigma: SIGMA) -> bool:
   """
-  pre: shard_ok(t[0] + 9 * t[3] + 81 * t[6] + 729 * t[9])
   pre: tree_ok(t) and sigma_ok(sigma)
+  pre: canon_ok(t) and shard_ok(shard_key(t))
   post: check_post(_)
   """
   d = decode(t)
-  term = build(d)
+  log = []
+  term = build(d, log)
   again = build(d)
   ok = all([normal_form_ok(term), ev(term, sigma) == oracle(d, sigma),
-            term == again, hash(term) == hash(again)])
+            term == again, hash(term) == hash(again), unmodified(log)])
   record("B %r %s" % (d, "N" if nontrivial(d) else "T"))
   return ok
 
@@ -175,13 +261,14 @@ def table_admits(table, sigma):
 
 def h_simplify(t: TREE, sigma: SIGMA, table: TABLE) -> bool:
   """
-  pre: shard_ok(t[0] + 9 * t[3] + 81 * t[6] + 729 * t[9])
   pre: tree_ok(t) and sigma_ok(sigma)
+  pre: canon_ok(t) and shard_ok(shard_key(t))
   pre: table_admits(table, sigma)
   post: check_post(_)
   """
   d = decode(t)
-  term = build(d)
+  log = []
+  term = build(d, log)
   assignments = {
       VARS[x]: SymSet(table[x * NVAL:(x + 1) * NVAL]) for x in range(NV)}
   try:
@@ -189,6 +276,6 @@ def h_simplify(t: TREE, sigma: SIGMA, table: TABLE) -> bool:
   except Exception:  # pylint: disable=broad-except
     record("S %r RAISED" % (d,))
     return False
-  ok = ev(simp, sigma) == oracle(d, sigma)
+  ok = all([ev(simp, sigma) == oracle(d, sigma), unmodified(log)])
   record("S %r %s" % (d, "N" if nontrivial(d) else "T"))
   return ok
